@@ -3,11 +3,121 @@ coq/Decode.v is a decoder written from include/jls/format.h only; coq/Properties
 (dw_walk f = Ok w implies the conformance record: CRCs, alignment, tiling, END, lengths, links, head tables, index
 entries) and totality.  The extracted decoder walks every file the implementation produces here (sync writer,
 jls_copy output, repaired crash images) in STRICT mode and its rebuilt content is compared with the library reader."""
-import os, glob
+import os, glob, struct
 import vlib, proglib
 import C05_walk
 
+def _gen_const(name, default):
+    """a constant of coq/Generated.v (regenerated from /repo's headers by every run)"""
+    import re
+    try:
+        m = re.search(r"Definition %s : N := (\d+)\." % name, open(os.path.join(vlib.COQ, "Generated.v")).read())
+        return int(m.group(1)) if m else default
+    except Exception:
+        return default
+
+
 PROP_FILES = ["Properties_C05.v", "Properties_gen.v", "Properties_compose.v", "Properties_e2e.v", "Properties_links.v"]
+
+
+def _chunk(d, off):
+    """(tag, chunk_meta, payload) of the chunk at byte offset off, or None"""
+    if off < 32 or off + 32 > len(d):
+        return None
+    nx, pv, tag, rsv, meta, pl, ppl, crc = struct.unpack("<QQBBHIII", d[off:off + 32])
+    if off + 32 + pl > len(d):
+        return None
+    return tag, meta, d[off + 32:off + 32 + pl]
+
+
+def skipped_omitted_blocks(path, verdict, sigs):
+    """The decoder refused a repaired file because a level-1 FSR index entry points at a DATA chunk with another timestamp than the entry's
+    position implies.  Returns the signature of the recorded finding iff the file shows exactly that history: the signal can have omitted
+    blocks (omission requested, or constant blocks of a <= 8-bit type), every mismatching entry points at a DATA chunk of the same signal
+    that lies a whole number of blocks LATER than its position (the omitted blocks in between have no entry), and no entry points earlier."""
+    try:
+        TAG_FSR_DATA, TAG_FSR_INDEX = _gen_const("JLS_TAG_TRACK_FSR_DATA", 0x22), _gen_const("JLS_TAG_TRACK_FSR_INDEX", 0x23)
+        off = int(verdict.split()[2])
+        d = open(path, "rb").read()
+        c = _chunk(d, off)
+        if c is None or c[0] != TAG_FSR_INDEX or (c[1] >> 12) != 1 or len(c[2]) < 16:
+            return None
+        sid = c[1] & 0x0fff
+        st = sigs.get(sid)
+        if not st or not st.get("may_omit") or not st.get("spd"):
+            return None
+        ts, cnt, esb, _ = struct.unpack("<qIHH", c[2][:16])
+        if esb != 64 or 16 + 8 * cnt > len(c[2]):
+            return None
+        late = 0
+        for i, e in enumerate(struct.unpack("<%dQ" % cnt, c[2][16:16 + 8 * cnt])):
+            if e == 0:
+                continue
+            t = _chunk(d, e)
+            if t is None or t[0] != TAG_FSR_DATA or t[1] != sid or len(t[2]) < 16:
+                return None
+            delta = struct.unpack("<q", t[2][:8])[0] - (ts + i * st["spd"])
+            if delta < 0 or delta % st["spd"] != 0:
+                return None
+            late += 1 if delta > 0 else 0
+        return "repaired-nonconformant:index-entry-timestamp:omitted-blocks-skipped" if late else None
+    except Exception:
+        return None
+
+
+def first_chunk_before_head_update(path, verdict):
+    """The decoder refused a repaired file because level 0 of a track's head table does not name the first DATA chunk of the track.  Returns
+    the signature of the recorded finding iff the file shows exactly this history: the table entry is still 0 (never written, not a wrong
+    pointer), and the track's DATA chunks in the file form one list that starts with a chunk without predecessor - the writer was stopped
+    after appending the first chunk of the track and before rewriting the head table in place, and the open repairs neither."""
+    try:
+        off = int(verdict.split()[2])
+        d = open(path, "rb").read()
+        c = _chunk(d, off)
+        if c is None or (c[0] & 0x27) != 0x21 or len(c[2]) < 8:      # a track HEAD chunk
+            return None
+        if struct.unpack("<Q", c[2][:8])[0] != 0:
+            return None
+        data_tag = (c[0] & 0x38) | 0x02
+        found, pos = [], 32
+        while pos + 32 <= len(d):
+            nx, pv, tag, rsv, meta, pl, ppl, crc = struct.unpack("<QQBBHIII", d[pos:pos + 32])
+            if tag == data_tag and meta == c[1]:
+                found.append((pos, pv))
+            pos += (32 + pl + (4 if pl else 0) + 7) // 8 * 8
+        if not found or found[0][1] != 0 or any(pv == 0 for (_, pv) in found[1:]):
+            return None
+        return "repaired-nonconformant:track-head-entry-0:first-chunk-before-head-update"
+    except Exception:
+        return None
+
+
+def head_zeroed_after_omitted_tail(path, verdict):
+    """The decoder refused a repaired file because level 1 of an FSR head table does not name the first level-1 INDEX chunk.  Returns the
+    signature of the recorded finding iff: the entry is 0, level-1 INDEX chunks of the signal exist, and the last one of their list ends
+    with a 0 entry (the last block was omitted) - jls_track_repair_pointers takes that 0 for 'no lower level' and clears the head entry."""
+    try:
+        off = int(verdict.split()[2])
+        d = open(path, "rb").read()
+        c = _chunk(d, off)
+        if c is None or c[0] != _gen_const("JLS_TAG_TRACK_FSR_HEAD", 0x21) or len(c[2]) < 16:
+            return None
+        if struct.unpack("<Q", c[2][8:16])[0] != 0:
+            return None
+        last, pos = None, 32
+        while pos + 32 <= len(d):
+            nx, pv, tag, rsv, meta, pl, ppl, crc = struct.unpack("<QQBBHIII", d[pos:pos + 32])
+            if tag == _gen_const("JLS_TAG_TRACK_FSR_INDEX", 0x23) and meta == (c[1] | 0x1000) and nx == 0:
+                last = d[pos + 32:pos + 32 + pl]
+            pos += (32 + pl + (4 if pl else 0) + 7) // 8 * 8
+        if last is None or len(last) < 16:
+            return None
+        ts, cnt, esb, _ = struct.unpack("<qIHH", last[:16])
+        if cnt < 1 or 16 + 8 * cnt > len(last) or struct.unpack("<Q", last[16 + 8 * (cnt - 1):16 + 8 * cnt])[0] != 0:
+            return None
+        return "repaired-nonconformant:track-head-entry-1:last-block-omitted"
+    except Exception:
+        return None
 
 
 def run(ctx):
@@ -19,7 +129,7 @@ def run(ctx):
     os.makedirs(out, exist_ok=True)
     n = 30 if ctx.tier == "quick" else 300
     import C17, crashlib
-    scripts, files, kinds = [], [], []
+    scripts, files, kinds, sigmeta = [], [], [], {}
     for i in range(n):
         w, sigs, has_omit = C17.gen_writer(ctx.rng, ctx.tier)
         f1 = os.path.join(out, "copy%d.jls" % i)
@@ -52,6 +162,7 @@ def run(ctx):
                 continue
             f2 = os.path.join(out, "rep%d_%d_%d.jls" % (i, k, j))
             scripts.append(";".join(w + ["wclose", "image %d %d" % (k, j), "ropen", "rclose", "save " + f2])); files.append(f2); kinds.append("repaired")
+            sigmeta[f2] = sigs
     scratch = os.path.join(ctx.tmp, "scratch_walk2")
     os.makedirs(scratch, exist_ok=True)
     impl = vlib.run_c("plain", "prog", scripts, args=[scratch, "timeout=60"], timeout=3000)
@@ -71,6 +182,14 @@ def run(ctx):
         if not v.startswith("OK"):
             nbad += 1
             sig = ("repaired-nonconformant:" + (v.split() + ["?", "?"])[1]) if k == "repaired" else None
+            if sig == "repaired-nonconformant:index-entry-timestamp":
+                # listed only for the one history that is a recorded defect (blocks omitted by the writer whose level-1 summary was still
+                # buffered at the stop: the repair re-indexes the DATA chunks on disk as if they were consecutive); anything else stays a violation
+                sig = skipped_omitted_blocks(f, v, sigmeta.get(f, {})) or sig
+            elif sig == "repaired-nonconformant:track-head-entry-0":
+                sig = first_chunk_before_head_update(f, v) or sig
+            elif sig == "repaired-nonconformant:track-head-entry-1":
+                sig = head_zeroed_after_omitted_tail(f, v) or sig
             if nbad <= 20:
                 ctx.violation("walk_%s_%d.txt" % (k, nbad), "script:\n%s\n\nwalk: %s\n" % (s, v), "format walk of a %s file failed: %s" % (k, v[:160]), sig=sig)
     ctx.cov["rule"] = ("writer programs (several sources/signals/types, annotations, UTC, user data, omission, 0..4 summary levels, empty signals) run on the implementation; "
